@@ -75,6 +75,7 @@ func LoadWorld(repoDir string, patterns []string) (*World, error) {
 		UsedFields: map[string]map[int]bool{}, heap: &HeapReg{arrs: map[string]*ArrInfo{}}}
 	w.S = NewSorts(w)
 	packages.Visit(pkgs, nil, func(p *packages.Package) { w.AllPkgs[p.PkgPath] = p })
+	buildStructCanon(w.AllPkgs)
 	if len(pkgs) > 0 {
 		w.Fset = pkgs[0].Fset
 	}
@@ -150,8 +151,43 @@ func LoadWorld(repoDir string, patterns []string) (*World, error) {
 	return w, nil
 }
 
+// structCanon maps an underlying struct (shared by "type A B" declarations) to one canonical named type,
+// so that a pointer conversion between such types keeps addressing the same heap cells.
+var structCanon = map[*types.Struct]string{}
+
+func buildStructCanon(pkgs map[string]*packages.Package) {
+	for _, p := range pkgs {
+		if p.Types == nil {
+			continue
+		}
+		sc := p.Types.Scope()
+		for _, n := range sc.Names() {
+			tn, ok := sc.Lookup(n).(*types.TypeName)
+			if !ok || tn.IsAlias() {
+				continue
+			}
+			st, ok := tn.Type().Underlying().(*types.Struct)
+			if !ok {
+				continue
+			}
+			if nt, isNamed := tn.Type().(*types.Named); isNamed && nt.TypeParams().Len() > 0 {
+				continue
+			}
+			s := tn.Type().String()
+			if old, seen := structCanon[st]; !seen || s < old {
+				structCanon[st] = s
+			}
+		}
+	}
+}
+
 func structKey(t types.Type) string {
 	if n, ok := t.(*types.Named); ok {
+		if st, isStruct := n.Underlying().(*types.Struct); isStruct {
+			if c, ok := structCanon[st]; ok {
+				return c
+			}
+		}
 		return n.String()
 	}
 	if a, ok := t.(*types.Alias); ok {
